@@ -1,0 +1,38 @@
+//go:build verif
+
+package cache
+
+import "time"
+
+// VerifItem is a read-only view of one stored object (verification harness only).
+type VerifItem struct {
+	Hash        string
+	ExpiresInMs int64 // Expires - now, milliseconds
+	Hits        int
+}
+
+// VerifAdvance makes every stored object look d older: equivalent, for Get/Set/Update,
+// to advancing the wall clock by d. Add-only hook for the verification harness.
+func (c *Cache) VerifAdvance(d time.Duration) {
+	c.storage.Range(func(k, v any) bool {
+		if it, ok := v.(*CacheItem); ok {
+			it.Expires = it.Expires.Add(-d)
+			it.EntryTime = it.EntryTime.Add(-d)
+			it.requestedTime = it.requestedTime.Add(-d)
+		}
+		return true
+	})
+}
+
+// VerifSnapshot lists the stored objects.
+func (c *Cache) VerifSnapshot() []VerifItem {
+	var out []VerifItem
+	now := time.Now()
+	c.storage.Range(func(k, v any) bool {
+		if it, ok := v.(*CacheItem); ok {
+			out = append(out, VerifItem{Hash: k.(string), ExpiresInMs: it.Expires.Sub(now).Milliseconds(), Hits: it.Hits})
+		}
+		return true
+	})
+	return out
+}
